@@ -32,6 +32,8 @@ THEOREMS = [
     "OQuPyVerif.Props.C17.remove_guard",
     "OQuPyVerif.Props.C17.reader_never_alters",
     "OQuPyVerif.Props.C17.flag_tests_sound",
+    "OQuPyVerif.Props.C17.unwind_never_closes",
+    "OQuPyVerif.Props.C17.exception_interrupted_never_clean",
 ]
 
 VLEN = ["initial_tensor_data", "initial_tensor_shape", "mpo_tensors_data", "mpo_tensors_shape",
@@ -70,8 +72,13 @@ def enc_cmds(calls):
     """calls: [(kind in I/M/C, step, tensor or None)]"""
     if not calls:
         return "-"
-    return "|".join(("I" if k == "I" else "%s%d" % (k, step)) + "@" + enc_tensor(t)
-                    for k, step, t in calls)
+    out = []
+    for k, step, t in calls:
+        if k in ("N", "D"):              # assignment to .name / .description (t: text or None)
+            out.append(k + "@" + ("None" if t is None else hexs(t)))
+        else:
+            out.append(("I" if k == "I" else "%s%d" % (k, step)) + "@" + enc_tensor(t))
+    return "|".join(out)
 
 
 def enc_meta(hs, dt, tin, tout, name, descr):
@@ -445,8 +452,15 @@ def complete_content(sc, path):
 # crash-point runner (separate interpreter; one forked child per crash point)
 # ---------------------------------------------------------------------------
 
-def _child(sc, path, k_kill, flush, logfd):
-    """never returns"""
+class InjectedFault(RuntimeError):
+    """an error raised inside the writer (stands for disk full, MemoryError, ...)"""
+
+
+def _child(sc, path, k_kill, variant, logfd):
+    """never returns.  variant: exit (os._exit after op k), flush (flush, then os._exit),
+    raise / interrupt (InjectedFault / KeyboardInterrupt raised after op k returns; it unwinds
+    through the library like any exception; whatever is still open is then flushed, as h5py
+    does when an interpreter exits, and the process ends)"""
     try:
         count = [0]
 
@@ -454,28 +468,43 @@ def _child(sc, path, k_kill, flush, logfd):
             count[0] += 1
             os.write(logfd, (label + "\n").encode())
             if count[0] == k_kill:
-                if flush and tr.cur is not None:
+                if variant == "raise":
+                    raise InjectedFault("injected after operation %d" % k_kill)
+                if variant == "interrupt":
+                    raise KeyboardInterrupt()
+                if variant == "flush" and tr.cur is not None:
                     try:
                         tr.cur.flush()
                     except Exception:
                         pass
                 os._exit(0)
         tr = H5Tracer(tick)
+        propagated = None
         with tr:
             with warnings.catch_warnings():
                 warnings.simplefilter("ignore")
-                run_scenario(sc, path)
+                try:
+                    run_scenario(sc, path)
+                except (InjectedFault, KeyboardInterrupt) as e:
+                    propagated = type(e).__name__
+        if variant in ("raise", "interrupt"):
+            os.write(logfd, ("END:%s\n" % (propagated or "swallowed")).encode())
+            try:
+                if tr.cur is not None and tr.cur.id.valid:
+                    tr.cur.flush()
+            except Exception:
+                pass
         os._exit(0)
     except BaseException as e:      # noqa
         os.write(logfd, ("EXC:%s:%s\n" % (type(e).__name__, str(e)[:200])).encode())
         os._exit(3)
 
 
-def _fork_run(sc, path, k_kill, flush, logpath):
+def _fork_run(sc, path, k_kill, variant, logpath):
     fd = os.open(logpath, os.O_WRONLY | os.O_CREAT | os.O_TRUNC)
     pid = os.fork()
     if pid == 0:
-        _child(sc, path, k_kill, flush, fd)
+        _child(sc, path, k_kill, variant, fd)
     os.close(fd)
     _, status = os.waitpid(pid, 0)
     log = open(logpath).read().splitlines()
@@ -509,19 +538,21 @@ def runner_main(spec_path, out_path):
             out["full_complete"] = complete_content(sc, path)
         make_prior(sc["prior"], path)
         out["prior_dump"] = dump_file(path)
-        status, log = _fork_run(sc, path, 0, False, logp)
+        status, log = _fork_run(sc, path, 0, "exit", logp)
         out["full_log"] = log
         out["full_dump_forked"] = dump_file(path)
-        nops = len([l for l in log if not l.startswith("EXC:")])
+        nops = len([l for l in log if not l.startswith(("EXC:", "END:"))])
         ks = sc.get("ks") or list(range(1, nops + 1))
         for k in ks:
             for variant in sc.get("variants", ["exit", "flush"]):
                 make_prior(sc["prior"], path)
-                status, log = _fork_run(sc, path, k, variant == "flush", logp)
+                status, log = _fork_run(sc, path, k, variant, logp)
                 outcome, detail = classify(path)
+                end = [l for l in log if l.startswith(("END:", "EXC:"))]
                 out["points"].append({
                     "k": k, "variant": variant, "op": log[k - 1] if len(log) >= k else None,
                     "ops_logged": len(log), "outcome": outcome, "detail": detail,
+                    "end": end[0] if end else None,
                     "dump": dump_file(path)})
     finally:
         shutil.rmtree(work, ignore_errors=True)
@@ -596,27 +627,42 @@ def corpus_scenarios():
 
 
 def scenarios(tier, rng):
-    scs = corpus_scenarios()          # past failures first
-    scs.append({"kind": "export", "pt": gen_pt_spec(rng, length=2, rank=3, max_bond=2, with_dt=True,
+    """writer scenarios; `variants` = how the writer is interrupted after each operation"""
+    gen = []
+    gen.append({"kind": "export", "pt": gen_pt_spec(rng, length=2, rank=3, max_bond=2, with_dt=True,
                                                     with_tr=False, named=True),
-                "ovw": False, "prior": "missing"})
-    scs.append({"kind": "export", "pt": gen_pt_spec(rng, length=1, rank=4, max_bond=2, with_dt=False,
+                "ovw": False, "prior": "missing",
+                "variants": ["exit", "flush", "raise", "interrupt"]})
+    gen.append({"kind": "export", "pt": gen_pt_spec(rng, length=1, rank=4, max_bond=2, with_dt=False,
                                                     with_tr=True, named=False),
-                "ovw": True, "prior": "pt"})
-    scs.append({"kind": "filept", "pt": gen_pt_spec(rng, length=3, rank=4, max_bond=2, with_tr=False),
-                "ovw": True, "prior": "missing"})
-    scs.append({"kind": "pttempo", "coupling": "z", "steps": 2, "ovw": True, "prior": "missing",
-                "variants": ["flush"]})
+                "ovw": True, "prior": "pt", "variants": ["exit", "flush", "interrupt"]})
+    gen.append({"kind": "filept", "pt": gen_pt_spec(rng, length=3, rank=4, max_bond=2, with_tr=False),
+                "ovw": True, "prior": "missing", "variants": ["exit", "flush", "raise"]})
+    # a named file that must not be overwritten: the object is not entitled to remove it
+    gen.append({"kind": "pttempo", "coupling": "z", "steps": 2, "ovw": False, "prior": "missing",
+                "variants": ["flush", "interrupt"]})
     if tier == "thorough":
         for i in range(6):
-            scs.append({"kind": rng.choice(["export", "filept"]),
+            gen.append({"kind": rng.choice(["export", "filept"]),
                         "pt": gen_pt_spec(rng, max_bond=3),
-                        "ovw": rng.random() < 0.5, "prior": "missing"})
-            if scs[-1]["ovw"]:
-                scs[-1]["prior"] = rng.choice(["missing", "pt", "unreadable"])
-        scs.append({"kind": "pttempo", "coupling": "x", "steps": 3, "ovw": True, "prior": "pt"})
-        scs.append({"kind": "pttempo", "coupling": "z", "steps": 4, "ovw": False, "prior": "missing"})
-    return scs
+                        "ovw": rng.random() < 0.5, "prior": "missing",
+                        "variants": ["exit", "flush", "raise", "interrupt"]})
+            if gen[-1]["ovw"]:
+                gen[-1]["prior"] = rng.choice(["missing", "pt", "unreadable"])
+        gen.append({"kind": "pttempo", "coupling": "x", "steps": 3, "ovw": True, "prior": "pt",
+                    "variants": ["exit", "flush", "raise", "interrupt"]})
+        gen.append({"kind": "pttempo", "coupling": "z", "steps": 4, "ovw": False, "prior": "missing",
+                    "variants": ["exit", "flush", "raise", "interrupt"]})
+    # past failures first (unless the same writer is generated anyway)
+    def core(sc):
+        return {k: v for k, v in sc.items() if k not in ("variants", "ks")}
+    scs = []
+    for sc in corpus_scenarios():
+        if not any(core(sc) == core(g) for g in gen):
+            sc = dict(sc)
+            sc.setdefault("variants", ["exit", "flush", "raise", "interrupt"])
+            scs.append(sc)
+    return scs + gen
 
 
 def model_line_for(sc, result, crash):
@@ -629,9 +675,9 @@ def model_line_for(sc, result, crash):
         pt = build_simple(sc["pt"])
         return "%s ovw=%d disk=%s %s %s" % ("crash-export" if crash else "export", int(sc["ovw"]),
                                             disk, version_token(), enc_simple(pt))
-    return "%s mode=%s disk=%s %s close=1 %s cmds=%s" % (
+    return "%s mode=%s disk=%s %s close=1 unwind=%s %s cmds=%s" % (
         "crash-writer" if crash else "writer", result["mode"], disk, version_token(),
-        result["meta"], result["cmds"])
+        "pttempo" if sc["kind"] == "pttempo" else "none", result["meta"], result["cmds"])
 
 
 def interrupted_before_close(result):
@@ -651,16 +697,29 @@ def judge_points(sc, result):
     if result.get("full_error"):
         return bad
     kclose = interrupted_before_close(result)
+    seen = set()
     for p in result["points"]:
         if p["k"] <= kclose and p["outcome"] == "clean":
-            bad.append(("writing-flag:interrupted-file-opens-without-warning",
-                        {"scenario": sc, "killed_after_op": p["k"], "op": p["op"],
+            if p.get("end") == "END:swallowed":
+                continue        # the library absorbed the fault and the writer ran on
+            exc = p["variant"] in ("raise", "interrupt")
+            key = ("interrupted-by-exception:file-opens-without-warning:" + sc["kind"]) if exc \
+                else "writing-flag:interrupted-file-opens-without-warning"
+            if key in seen:
+                continue
+            seen.add(key)
+            how = {"exit": "killed (os._exit)", "flush": "killed (os._exit after flush)",
+                   "raise": "hit by an exception (RuntimeError)",
+                   "interrupt": "hit by KeyboardInterrupt"}[p["variant"]]
+            bad.append((key,
+                        {"scenario": dict(sc, ks=[p["k"]], variants=[p["variant"]]),
+                         "killed_after_op": p["k"], "op": p["op"],
                          "variant": p["variant"], "reader": p["outcome"],
-                         "how": "writer killed (os._exit%s) after h5py operation %d (%s), before "
-                                "close(); import_process_tensor opened the surviving file without "
-                                "error and without the corruption warning"
-                                % (" after flush" if p["variant"] == "flush" else "", p["k"], p["op"])}))
-            break
+                         "file": (p.get("dump") or "")[:400],
+                         "how": "writer %s after h5py operation %d (%s), before close() was "
+                                "reached on the normal path; import_process_tensor opened the "
+                                "surviving file without error and without the corruption warning"
+                                % (how, p["k"], p["op"])}))
     if result["full_outcome"] != "clean":
         bad.append(("writing-flag:closed-file-%s" % result["full_outcome"],
                     {"scenario": sc, "reader": result["full_outcome"],
@@ -779,9 +838,13 @@ def compare_crash(res, line, got, sc, r, key):
         res.disagree("model cannot run the writer scenario: " + got[:100], {"scenario": sc})
         return
     head, dumps = got[len("ok trace="):].split(" dumps=", 1)
-    trace, outcomes = head.split(" outcomes=", 1)
+    head, excdumps = head.split(" excdumps=", 1)
+    trace, rest = head.split(" excoutcomes=", 1)
+    excoutcomes, outcomes = rest.split(" outcomes=", 1)
     outcomes = outcomes.split(",")
+    excoutcomes = excoutcomes.split(",")
     dumps = dumps.split("#")
+    excdumps = dumps if excdumps == "same" else excdumps.split("#")
     log = r["full_log"]
     if trace.split(",") != log:
         res.disagree("sequence of h5py operations differs", {
@@ -802,10 +865,23 @@ def compare_crash(res, line, got, sc, r, key):
     if outcomes[L] != r["full_outcome"]:
         res.disagree("reader outcome on the completed file differs", {
             "scenario": sc, "impl": r["full_outcome"], "model": outcomes[L]})
+    kclose = interrupted_before_close(r)
     for p in r["points"]:
         k = p["k"]
         res.case(key + ":k%d:%s" % (k, p["variant"]), True)
-        if p["variant"] == "flush":
+        if p["variant"] in ("raise", "interrupt"):
+            # everything issued is persisted, then the handlers on the way out ran
+            if k > kclose or p.get("end") in (None, "END:swallowed"):
+                continue
+            if p["outcome"] != excoutcomes[k]:
+                res.disagree("reader outcome after an exception in the writer differs", {
+                    "scenario": sc, "k": k, "op": p["op"], "variant": p["variant"],
+                    "impl": p["outcome"], "model": excoutcomes[k]})
+            elif norm(p["dump"]) != norm(excdumps[k]):
+                res.disagree("file content after an exception in the writer differs", {
+                    "scenario": sc, "k": k, "op": p["op"], "variant": p["variant"],
+                    "impl": p["dump"][:600], "model": excdumps[k][:600]})
+        elif p["variant"] == "flush":
             # everything issued so far is persisted: the model must agree exactly
             if p["outcome"] != outcomes[k]:
                 res.disagree("reader outcome after a flushed crash differs", {
@@ -1021,8 +1097,9 @@ def run(tier, seed, replay):
     res.rule = ("complete enumeration: for each writer scenario (export() of hand-built PTs, a "
                 "file-backed PT filled in PT-TEMPO order, a real file-backed pt_tempo_compute; "
                 "fresh path / overwriting an older complete file) a child process is killed "
-                "(os._exit, with and without a preceding flush) after its k-th h5py operation "
-                "for every k; the surviving file is re-opened with import_process_tensor and "
+                "(os._exit, with and without a preceding flush) or hit by an exception "
+                "(RuntimeError / KeyboardInterrupt raised after the operation, unwinding through "
+                "the library's handlers) after its k-th h5py operation for every k; the surviving file is re-opened with import_process_tensor and "
                 "classified fail/warn/clean.  Flushed crashes and the completed run must equal "
                 "the model exactly (reader outcome and every dataset/attribute); unflushed ones "
                 "must be among the outcomes the model allows.  Also: the extracted flag tests "
